@@ -18,6 +18,16 @@ CHECKS = {
   text="Every skeleton combines generators, cuts, user balls sharing variables (incl. list balls), built-in errors and catch/3 goals that exit deterministically, with choice points, or are re-entered by backtracking; each is run uncaught, caught outside, inside findall, and with a throw after the catch has exited; the reference keeps catch frames as choice points with a trailed active flag. Exhaustive within the bounds.",
   note="Trusted: ref/solve's catch/throw semantics (self-checked against ISO 7.8.9 examples); only the formal part of error(Formal, Context) is compared.",
   design="DESIGN.md §3 C04"),
+ "C09": dict(
+  technique="explicit-state breadth-first search over database histories: every transition is one update/call executed on the real interpreter (history replayed on a fresh instance) and on a sequential reference database with call-time snapshots; states deduplicated by (model database, last operation) beyond an unmerged depth",
+  text="From 6+4 initial databases, every history over an alphabet of 38+20 operations (asserta/assertz, retract first/all/by pattern, retractall incl. non-linear and aliased patterns, abolish, calls, and updates issued inside open calls, open clause/2 and open retract/1) is explored to depth 3 (quick) / 4 (thorough); after every transition the operation's answers and the complete listing of the predicates are compared with the reference. Reports states, transitions and depth.",
+  note="Trusted: the reference database (ISO 7.5.4 logical update view). One don't-care of the property (whether an open retract/1 succeeds again for a snapshot clause removed meanwhile) is resolved by observing the implementation once per process.",
+  design="DESIGN.md §3 C09"),
+ "C10": dict(
+  technique="bounded-exhaustive enumeration of clause terms added through both paths (Exec, assertz after bindings) on the real interpreter: clause/2 listing and calls compared with the reference executing the source term, and translation validation of the stored bytecode by an independent decompiler (state read through a build-tag-guarded accessor); every clause of bootstrap.pl decompiled",
+  text="Every clause of the enumerated families is added to a fresh real interpreter by loading and by assertz (after bindings made in the asserting query) and then observed from later queries: clause/2 must answer a variant of the source with those bindings applied, calls with every argument pattern must behave as the reference machine says the source clause behaves, and the compiled instruction list, decompiled by an inverse of the compiler written for the harness, must denote the source term (same head arguments, body goals, variable sharing). The number of distinct variables is swept 0..40.",
+  note="Trusted: the decompiler (h/decompile.go), the reference machine and the harness reader used for bootstrap.pl. The accessor is injected at build time with -overlay (build tag verif); nothing is committed to /repo for it.",
+  design="DESIGN.md §3 C10"),
  "C07": dict(
   technique="bounded-exhaustive enumeration of the complete boundary-value grid (all functors x all operand pairs, all depth-2 trees over a reduced grid) on the real evaluator, each case compared with a math/big + IEEE-754 reference model",
   text="Every evaluable functor of the statement is run on the complete cross product of an integer and a float boundary grid (all int/float combinations), all shift counts, all six comparisons, and all depth-2 trees over a reduced grid; each result is compared with an exact reference (math/big integers, IEEE-754 doubles). Exhaustive within the grid: a wrong boundary test, a float detour or a sign slip in any of the per-type helpers shows up as a concrete expression.",
